@@ -175,7 +175,7 @@ def parse_type(t):
         return ("dict", t)
     if isinstance(t, (tuple, list)):
         return ("tuple", [parse_type(x) for x in t])
-    if t in ("int", "float", "bool", "str", "obj", "none", "opaque", "where1d", "where2d"):
+    if t in ("int", "float", "bool", "str", "obj", "none", "opaque", "where1d", "where2d", "margins"):
         return (t,)
     if t in ("u16", "u32", "u8"):
         return ("bv", int(t[1:]))
